@@ -429,6 +429,12 @@ func (m *Muxer) readLoop() {
 		recvChan.mu.Lock()
 		if recvChan.ch == nil {
 			recvChan.mu.Unlock()
+			m.sendError(
+				fmt.Errorf(
+					"received message for unknown protocol ID %d",
+					msg.GetProtocolId(),
+				),
+			)
 			return
 		}
 
